@@ -51,3 +51,47 @@ def expected_invocations(desc, T):
             out.append(t)
             last = t
     return out
+
+
+def run_repo_suite_monitored(prop_id, obs, timeout=900):
+    """Run the repository's own offline tests as a workload under the class-level monitors of `prop_id`
+    (vlib/suite_plugin.py) and merge what the monitors saw into `obs` (events prefixed 'suite:')."""
+    import json
+    import os
+    import subprocess
+    import tempfile
+    from . import env
+    fd, out = tempfile.mkstemp(prefix="suite_", suffix=".json", dir=os.path.join(env.VERIF, ".work"))
+    os.close(fd)
+    e = dict(os.environ)
+    e["PYTHONPATH"] = env.VERIF + os.pathsep + env.REPO
+    e["PYTHONDONTWRITEBYTECODE"] = "1"
+    e["VERIF_SUITE_PROPS"] = prop_id
+    e["VERIF_SUITE_OUT"] = out
+    cmd = [env.PYTHON, "-m", "pytest", "-q", "-x", "-p", "vlib.suite_plugin", "-p", "no:cacheprovider", "--timeout=900",
+           "--continue-on-collection-errors", "--deselect", "tests/test_integration.py::TestIntegration"]
+    try:
+        r = subprocess.run(cmd, cwd=env.REPO, env=e, capture_output=True, text=True, timeout=timeout)
+    except subprocess.TimeoutExpired:
+        obs.ev("suite_workload_timed_out")
+        return None
+    try:
+        with open(out) as f:
+            data = json.load(f)
+    except Exception:
+        obs.ev("suite_workload_no_report")
+        return None
+    finally:
+        try:
+            os.remove(out)
+        except OSError:
+            pass
+    d = data.get(prop_id, {})
+    for k, v in d.get("events", {}).items():
+        obs.ev("suite:" + k, v)
+    obs.boundary += d.get("boundary", 0)
+    for v in d.get("viol", []):
+        obs.violate("suite:" + v["kind"], "while the repository's own tests ran: " + v["detail"], **(v.get("witness") or {}))
+    obs.ev("suite_workload_runs")
+    obs.ev("suite_tests_collected", data.get("_tests_collected") or 0)
+    return data
